@@ -146,7 +146,12 @@ SegItemOk(rq, items) == \E it \in items : it.code = rq.code /\
 SegItemWhy(rq, items) == IF \E it \in items : it.code = rq.code /\ it.sid = rq.sid THEN "segment_position" ELSE "absent"
 SameSeg(rq, it) == it.pos = ToString(rq.pos) /\ it.sid = rq.sid
 EPosOk(rq, it) == rq.epos = 0 \/ (it.epos = ToString(rq.epos) /\ (rq.esub = 0 \/ it.esub = ToString(rq.esub)))
-ValOk(rq, it) == rq.val = "" \/ it.val = rq.val
+(* the offending value is echoed as it is; a character that is a separator of the acknowledgement itself cannot be carried by an element
+   (C06: an echoed value never adds or splits elements or segments), so at such a position any stand-in that is not a separator is right *)
+IsSepCh(c) == c \in {TERM, ELE, SUB, REP}
+ValOk(rq, it) == \/ rq.val = "" \/ it.val = rq.val
+                 \/ /\ Len(it.val) = Len(rq.val)
+                    /\ \A i \in 1..Len(rq.val) : LET a == SubSeq(rq.val, i, i)  b == SubSeq(it.val, i, i) IN a = b \/ (IsSepCh(a) /\ ~IsSepCh(b))
 EleItemOk(rq, items) == \E it \in items : SameSeg(rq, it) /\ it.code = rq.code /\ EPosOk(rq, it) /\ ValOk(rq, it)
 EleItemWhy(rq, items) ==
   IF \E it \in items : SameSeg(rq, it) /\ it.code = rq.code /\ EPosOk(rq, it) THEN "value"
